@@ -33,23 +33,27 @@ def utf8Payload (m : Rune) (comb : List Rune) : List Nat := Utf8.encode m ++ com
 
 /-- `<entry>+lg` on a case line = the tree under test has the locked-neighbour repair (probed by the harness, see
     `lockGuardSuffix` in harness/engines/draw.go); without the suffix the pinned drawCell / LockRegion are modelled -/
-def splitVariant (name : String) : String × Bool :=
-  if name.endsWith "+lg" then (name.dropRight 3, true) else (name, false)
+def splitVariant (name : String) : String × (Bool × Bool) :=
+  if name.endsWith "+lg" then (name.dropRight 3, (true, false))
+  else if name.endsWith "+lw" then (name.dropRight 3, (true, true))   -- guard + fixes/C13-locked-wide-walk.patch
+  else (name, (false, false))
 
-/-- `<entry>[+lg][+fz]`: `+fz` = the tree under test has the Fill repair (fixes/C09-fill-zero-width.patch, probed by
+/-- `<entry>[+lg|+lw][+fz][@charset]`: `+fz` = the tree under test has the Fill repair (fixes/C09-fill-zero-width.patch, probed by
     `fillZWSuffix` in harness/engines/cb.go) → `DrawCfg.fillZW` -/
-def splitVariants (name : String) : String × Bool × Bool :=
+def splitVariants (name0 : String) : String × (Bool × Bool) × Bool :=
+  let name := (name0.splitOn "@").headD name0   -- `entry+flags@charset`: the flags precede the charset
   let (n1, fz) := if name.endsWith "+fz" then (name.dropRight 3, true) else (name, false)
-  let (n2, lg) := splitVariant n1
-  (n2, lg, fz)
+  let (n2, lgw) := splitVariant n1
+  (n2, lgw, fz)
 
-def mkCfgs (env : Env) (ti : Terminfo) (tc : Bool) (fit fit0 : List (Nat × Nat)) (lg : Bool := false) (fz : Bool := false) : DrawCfg × RenderCfg :=
+def mkCfgs (env : Env) (ti : Terminfo) (tc : Bool) (fit fit0 : List (Nat × Nat)) (lgw : Bool × Bool := (false, false)) (fz : Bool := false) : DrawCfg × RenderCfg :=
+  let lg := lgw.1
   let d := derive ti
   let dc : DrawCfg := { rw := env.rw, payload := utf8Payload, hasHide := !ti.hideCursor.isEmpty,
                         hasCursorStyle := fun cs => match d.cursorStyles with | some l => cs < l.length | none => false,
                         hasCursorRGB := !d.cursorRGB.isEmpty,
                         cornerTrick := ti.autoMargin && ti.disableAutoMargin.isEmpty && !ti.insertChar.isEmpty,
-                        guardLocked := lg, fillZW := fz }
+                        guardLocked := lg, walkGuard := lgw.2, fillZW := fz }
   let rc : RenderCfg := { ti := ti, d := d,
                           truecolor := tc && !(ti.setFgBgRGB.isEmpty && ti.setFgRGB.isEmpty && ti.setBgRGB.isEmpty),
                           fit := lookupFit fit, fit0 := lookupFit fit0 }
